@@ -387,6 +387,11 @@ pub fn run(ctx: &Ctx) -> Report {
             ("X-HTTP-Method-Override", b"DELETE"), ("X-Amz-Content-Sha256", b"UNSIGNED-PAYLOAD"), ("Content-MD5", b"1B2M2Y8AsgTpgAmY7PhCfg=="),
             ("Content-Encoding", b"gzip"), ("Range", b"bytes=0-1"), ("Upgrade", b"h2c"), ("X-Amz-Expires", b"60"), ("Cookie", b"a=b"),
             ("User-Agent", b"aws-sdk"), ("Origin", b"https://evil.example"), ("X-Original-URL", b"/admin"), ("X-Rewrite-URL", b"/admin"),
+            // near-miss names of the headers the library consults
+            ("Authorization2", b"AWS4-HMAC-SHA256 Credential=x"), ("X-Amz-Date2", b"20000101T000000Z"), ("X-Amz-Dat", b"20000101T000000Z"),
+            ("X-Amz-Security-Token2", b"t"), ("X-Amz-Security-Toke", b"t"), ("Content-Type2", b"application/x-www-form-urlencoded"),
+            ("Dates", b"20000101T000000Z"), ("Host2", b"evil.example"), ("Hos", b"evil.example"), ("X-Amz-Algorithm", b"AWS4-HMAC-SHA256"),
+            ("X-Amz-Credential", b"AKIDOTHER/20150830/us-east-1/service/aws4_request"), ("X-Amz-Signature", b"0000"),
         ];
         let mut cases: Vec<(String, WireReq, Option<bool>, Option<String>)> = Vec::new(); // label, request, must accept?, same-outcome-as label
         let mut signed_wires: Vec<(usize, WireReq)> = Vec::new();
@@ -478,7 +483,7 @@ pub fn run(ctx: &Ctx) -> Report {
     Report {
         stats: st,
         rule: format!(
-            "{} base requests: x-a with every list of 0..2 values over 14 values (spaces outside/inside, empty, comma, 0xE9, quoted, inner/outer/double tabs, values beginning/ending in bytes 0x85 / 0xA0) x x-b (none, one, two values) x content-type (absent/present) x every signed subset of {{x-a, x-b, content-type, x-amz-date}} x 3 arrival orders x 3 name-case styles, header carrier and (1 in 5) query carrier; (1) accepted, canonical request bytes equal to the reference's; (2) on every {} base, every single edit of a signed header (insertion of 4 bytes at every position, deletion and 3 substitutions at every position, value added/removed, two values swapped, value moved to another signed name) with the old signature: Ok iff the reference header block is unchanged; (3) every insertion position of an unsigned header, removal/modification/extra value of every unsigned one, every rotation of the header groups: identical outcome; the same insertions on {} refused bases; (4) a thrice-repeated signed header among 12..100 header lines in 4 arrangements: accepted, refused once two signed values are swapped, unaffected by removing unsigned lines (each 8 times); (5) 8 Host spellings (ports 443/80/8443, upper case, trailing dot, IPv6, doubled port) signed literally on both carriers, each with 24 well-known unsigned hop-by-hop / proxy / content headers added, and every signature presented with every other Host value. states = distinct reference canonical requests",
+            "{} base requests: x-a with every list of 0..2 values over 14 values (spaces outside/inside, empty, comma, 0xE9, quoted, inner/outer/double tabs, values beginning/ending in bytes 0x85 / 0xA0) x x-b (none, one, two values) x content-type (absent/present) x every signed subset of {{x-a, x-b, content-type, x-amz-date}} x 3 arrival orders x 3 name-case styles, header carrier and (1 in 5) query carrier; (1) accepted, canonical request bytes equal to the reference's; (2) on every {} base, every single edit of a signed header (insertion of 4 bytes at every position, deletion and 3 substitutions at every position, value added/removed, two values swapped, value moved to another signed name) with the old signature: Ok iff the reference header block is unchanged; (3) every insertion position of an unsigned header, removal/modification/extra value of every unsigned one, every rotation of the header groups: identical outcome; the same insertions on {} refused bases; (4) a thrice-repeated signed header among 12..100 header lines in 4 arrangements: accepted, refused once two signed values are swapped, unaffected by removing unsigned lines (each 8 times); (5) 8 Host spellings (ports 443/80/8443, upper case, trailing dot, IPv6, doubled port) signed literally on both carriers, each with 36 unsigned headers (well-known hop-by-hop / proxy / content headers and near-miss names of the headers the library consults) added, and every signature presented with every other Host value. states = distinct reference canonical requests",
             n_bases, if edit_stride == 1 { "" } else { "third" }, n_ref
         ),
         bounds: json!({"bases": n_bases, "edit_stride": edit_stride}),
